@@ -363,6 +363,9 @@ class GenericPlainRegistry(Generic[QuantityT, UnitT], metaclass=RegistryMeta):
 
     def __deepcopy__(self: Self, memo) -> type[Self]:
         new = object.__new__(type(self))
+        # Objects that refer back to the registry (formatters, ...) must end up
+        # referring to the copy.
+        memo[id(self)] = new
         new.__dict__ = copy.deepcopy(self.__dict__, memo)
         new._init_dynamic_classes()
         return new
